@@ -13,7 +13,7 @@ SYS_FLAGS = [1, 2, 3, 4, 5]
 class TraceGen:
     def __init__(self, rng, run: StoreRun, sessions, *, boxes=(1,), idle=True,
                  readonly_sessions=(), weights=None, flipflop: float = 0.0,
-                 group: float = 0.0) -> None:
+                 group: float = 0.0, deliveries: bool = True) -> None:
         self.rng = rng
         self.run = run
         self.sessions = list(sessions)
@@ -24,6 +24,7 @@ class TraceGen:
         self.flipflop = flipflop   # share of STOREs that toggle \\Flagged/\\Seen on the first messages
         self.group = group         # probability of starting a "one log record, several uids" episode
         self.queue: list[tuple] = []   # labels of a running episode, executed back to back
+        self.deliveries = deliveries   # whether episodes may deliver messages without a connection
         self.w = {'append': 9, 'store': 16, 'expunge': 10, 'uidexpunge': 5, 'copy': 5, 'move': 7,
                   'fetch': 14, 'search': 8, 'noop': 10, 'check': 3, 'touch': 2, 'close': 1,
                   'idle': 3, 'select': 2, 'deliver': 2}
@@ -147,7 +148,7 @@ class TraceGen:
         rng = self.rng
         run = self.run
         ready = [s for s in self.sessions if s not in run.idle and run.selected(s) is not None]
-        if rng.random() < 0.75:
+        if rng.random() < 0.75 or not self.deliveries:
             # A marks 2-3 messages \\Deleted and expunges them with ONE EXPUNGE; B, whose view is
             # stale, then addresses a strict subset of them by UID
             cands = [s for s in ready if not run.selected(s).readonly
